@@ -1358,6 +1358,25 @@ def validate_stubs(seed=0):
 # --------------------------------------------------------------------------
 # facade construction and installation
 
+def _cpart(which):
+    def f(a):
+        if isinstance(a, core.SymComplex):
+            return getattr(a, which)
+        if isinstance(a, _np.ndarray) and a.dtype == object:
+            out = _np.empty(a.shape, dtype=object)
+            for idx, v in _np.ndenumerate(a):
+                if isinstance(v, (core.SymComplex, complex)):
+                    out[idx] = getattr(v, which)
+                else:
+                    out[idx] = v if which == 'real' else 0.0
+            return out
+        return getattr(_np, which)(a)
+    return f
+
+
+_real, _imag = _cpart('real'), _cpart('imag')
+
+
 def build():
     _patch_sparse()
     rnd = RandomFacade('global')
@@ -1388,7 +1407,7 @@ def build():
         'count_nonzero': _count_nonzero, 'where': _where, 'argwhere': _argwhere,
         'nonzero': _nonzero, 'argmax': _argmax, 'argmin': _argmin,
         'max': _max, 'min': _min, 'amax': _max, 'amin': _min, 'median': _median, 'percentile': _percentile,
-        'isscalar': _isscalar,
+        'isscalar': _isscalar, 'real': _real, 'imag': _imag,
         'linalg': np_linalg, 'random': rnd,
     }
     npf = Facade(_np, np_ov, 'numpy')
